@@ -301,6 +301,7 @@ Definition istep (fuel : nat) (st : istate) (o : op) : istate * obs :=
           end
       | _ => (st, OBad)
       end
+  | OMutateResult _ => (st, OSelf)   (* take / peek build a new container from the items *)
   end.
 
 Fixpoint irun (fuel : nat) (st : istate) (ops : list op) : list obs :=
